@@ -199,9 +199,38 @@ def wl_datetimes(ctx, rng, i):
                     continue
                 exp = ts.format_us(x_us, p, c)
                 ctx.count("direct_stixdatetime")
+                # a copy of the value is written like the value
+                try:
+                    import copy as _copy
+                    sd = u.STIXdatetime(x, precision=p, precision_constraint=c)
+                    for how, cp in (("deepcopy", _copy.deepcopy(sd)), ("deepcopy of a holder", _copy.deepcopy({"v": [sd]})["v"][0])):
+                        gc = u.format_datetime(cp)
+                        if gc != exp:
+                            ctx.violation(classify_text_mismatch(gc, exp), "a %s of a %s/%s timestamp is written %r, the original %r" % (how, p, c, gc, exp),
+                                          {"input": repr(x), "precision": p, "constraint": c, "got": gc, "expected": exp, "route": how})
+                            break
+                except Exception as e:
+                    ctx.violation("raised-on-valid-input", "copying a STIXdatetime raised %s" % type(e).__name__, {"input": repr(x), "exception": repr(e)})
                 if got != exp:
                     ctx.violation(classify_text_mismatch(got, exp), "format_datetime(STIXdatetime(%s/%s)) gave %r, expected %r" % (p, c, got, exp),
                                   {"input": repr(x), "precision": p, "constraint": c, "got": got, "expected": exp, "route": "STIXdatetime direct"})
+        # an object whose timestamp slot picks its precision from the value given (2.0 marking-definition.created): what it writes
+        # is read back and written again unchanged
+        if form != "date" and ctx.counters.get("evaluations", 0) % 7 == 0:
+            try:
+                import stix2
+                md = stix2.v20.MarkingDefinition(definition_type="statement", definition={"statement": "s"}, created=x)
+                first = md.serialize()
+                second = stix2.parse(first, version="2.0").serialize()
+                ctx.ev()
+                ctx.count("object_fixed_points")
+                if first != second:
+                    ctx.violation("fixed-point", "2.0 marking-definition built with created=%r writes %s, and after reading back %s" % (
+                        x, first[first.find('"created"'):first.find('"created"') + 45], second[second.find('"created"'):second.find('"created"') + 45]),
+                        {"input": repr(x), "first": first, "second": second, "route": "v20.MarkingDefinition"})
+            except Exception as e:
+                if not isinstance(e, ValueError):
+                    ctx.violation("raised-on-valid-input", "2.0 marking-definition with created=%r raised %s" % (x, type(e).__name__), {"input": repr(x), "exception": repr(e)})
         # direct formatting of a plain datetime or date (no precision metadata -> ANY); the JSON encoders send both here
         if True:
             ctx.ev()
